@@ -198,7 +198,10 @@ class RDMol2StereoMolGraph:
                 neigh_atoms = tuple([neigh_atoms[i] for i in (0, 4, 1, 2, 3)])
                 tbp_atoms = (id_atom_map[atom_idx], *neigh_atoms)
                 assert len(tbp_atoms) == 6
-                atom_stereo = TrigonalBipyramidal(tbp_atoms, 1)
+                # @TB1: seen from the first axial atom the equatorial atoms
+                # run anticlockwise, which is parity -1 in the convention
+                # used by the perception from coordinates
+                atom_stereo = TrigonalBipyramidal(tbp_atoms, -1)
 
             elif chiral_tag == Chem.ChiralType.CHI_OCTAHEDRAL:
                 perm = atom.GetUnsignedProp("_chiralPermutation")
